@@ -88,7 +88,7 @@ PROPS["C04"] = {
              "several refetch epochs. Oracle = interval automaton (served from cache iff elapsed < L, never at elapsed >= L+1, boundary second either; Age within 1s and <= T; version must be the latest fetch). "
              "Non-trivial = a request inside the boundary second or an expired refetch, and at least one hit."),
     "assumptions": _SIM_ASSUME,
-    "jobs": [_sim("TestC04", 2000, 60000)],
+    "jobs": [_sim("TestC04", 2000, 60000), _sim("TestC04Store", 400, 15000, qshards=8)],
 }
 PROPS["C06"] = {
     "level": "exploration",
